@@ -1,6 +1,7 @@
 import OV.Lemmas.C03Steps
 import OV.Lemmas.C03Uses
 import OV.Lemmas.C03FragA
+import OV.Lemmas.C03Mod
 import OV.Lemmas.C03BkA
 /-!
 # C03 — `optimize()` never changes what a model computes
@@ -359,6 +360,32 @@ theorem fold_fragmentA_preserves (sem : Sem V) (ctx : Ctx) (hnf : ctx.isFunction
   foldGraph_fragmentA sem ctx hnf hor L.identity (replLaws_of L) L hct hot info g hwf hcmt d outer args hinfo hinfoNF hann vs
     (prune_ok_fragmentA 7 ctx hnf info g (fun n hn => FragA.toBk (hwf.nodes n hn).1) hnofresh) he
 
+/-- **The same theorem with its structural hypotheses replaced by one decidable check** that the driver evaluates on every
+generated case (`inTheoremFragment`, reported as `thm:fragmentA` in the evidence): not a function body, every node in one
+of the classes of fragment A, order condition, node outputs are not formal inputs, no name looks generated, the annotation
+table records constants/element types only for names that do not look generated and no constant for a node output.  What
+remains are the semantic hypotheses: oracle soundness and typing, operator laws, truthfulness of the recorded constants
+and element types for the execution at hand. -/
+theorem fold_fragmentA_checked (sem : Sem V) (ctx : Ctx) (hor : OracleSound sem ctx) (L : OpLaws sem) (hct : CastTyped L)
+    (hot : OracleTyped L ctx) (info : List (Name × VInfo)) (g : Graph)
+    (hchk : inTheoremFragment ctx.isFunction info g = true)
+    (hcms : ∀ n ∈ g.nodes, n.isOp "Constant" = true → ConstMarkSound sem ctx n)
+    (hcmt : ∀ n ∈ g.nodes, n.isOp "Constant" = true → ConstMarkTyped L ctx n)
+    (d : Nat) (outer : Env V) (args : List (Option V))
+    (hstart : ∀ ρ0, startEnv sem outer g args = some ρ0 → ∀ x c, ((lookupA info x).getD {}).const = some c →
+      ρ0 x = some (sem.tensor c.tok))
+    (hann : ∀ ρ0 ρf, startEnv sem outer g args = some ρ0 → evalNodes (evalNode sem (evalGraph sem d)) ρ0 g.nodes = some ρf →
+      ∀ x v dt, ρf x = some v → ((lookupA info x).getD {}).dtype = some dt → L.hasDtype v dt)
+    (vs : List V) (he : evalGraph sem (d + 1) outer g args = some vs) :
+    evalGraph sem (d + 1) outer (foldGraph ctx info g).2 args = some vs := by
+  simp only [inTheoremFragment, Bool.and_eq_true, Bool.not_eq_true'] at hchk
+  obtain ⟨⟨hnf, hfrag⟩, hinfo⟩ := hchk
+  obtain ⟨h1, h2, h3, h4, h5⟩ := fragAWFB_sound g hfrag
+  obtain ⟨i1, i2, i3⟩ := infoOKB_sound info g hinfo
+  exact fold_fragmentA_preserves sem ctx hnf hor L hct hot info g
+    ⟨fun n hn => ⟨h1 n hn, hcms n hn⟩, h2, h3, h4⟩ hcmt h5 d outer args ⟨hstart, i2⟩ i1
+    (fun ρ0 ρf hs hn => ⟨hann ρ0 ρf hs hn, i3⟩) vs he
+
 /-- **`ConstMarkSound` is derivable** for the three `Constant` forms the semantics interprets (`value`,
 `value_ints`, `value_int`): if the token table is coherent with the semantics (`TokCoherent`: the
 token `_process_constant_node` finds for a `value` tensor denotes that tensor; the tokens it builds
@@ -369,6 +396,13 @@ theorem const_mark_sound (sem : Sem V) (ctx : Ctx) (hco : TokCoherent sem ctx) (
     (ha : (∃ t, a = ("value", .tensor t)) ∨ (∃ l, a = ("value_ints", .ints l)) ∨ (∃ i, a = ("value_int", .int i))) :
     ConstMarkSound sem ctx (.mk "Constant" "" [] [o] [a] []) :=
   constMarkSound_of_coherent sem ctx hco o a ha
+
+/-- …and so is `ConstMarkTyped`, from `TokTyped` (the token found for a `value` tensor has that tensor's element type; the
+`value_ints`/`value_int` forms are INT64). -/
+theorem const_mark_typed {sem : Sem V} (L : OpLaws sem) (ctx : Ctx) (hty : TokTyped L ctx) (o : Name) (a : String × Attr)
+    (ha : (∃ t, a = ("value", .tensor t)) ∨ (∃ l, a = ("value_ints", .ints l)) ∨ (∃ i, a = ("value_int", .int i))) :
+    ConstMarkTyped L ctx (.mk "Constant" "" [] [o] [a] []) :=
+  constMarkTyped_of_typed L ctx hty o a ha
 
 /-- …and before pruning no extra hypothesis is needed: the result of the node loop and of the
 graph-output replacement (`visit_graph`) refines the input on fragment A. -/
@@ -383,6 +417,17 @@ theorem visit_graph_fragmentA_preserves (sem : Sem V) (ctx : Ctx) (hnf : ctx.isF
     (he : evalGraph sem (d + 1) outer g args = some vs) :
     evalGraph sem (d + 1) outer (visitGraph ctx maxDepth (initialState g info) g).2 args = some vs :=
   (visitGraph_fragmentA sem ctx hnf hor L.identity (replLaws_of L) L hct hot info g hwf hcmt d 7 outer args hinfo hinfoNF hann vs he).1
+
+/-- **The `modified` flag is truthful on fragment A**: if the model of `FoldConstantsPass` reports "not modified", the graph
+it returns is *equal* to the graph it was given (nodes, initializers, outputs) — for every option tuple, annotation table
+and oracle table, errors included.  This is what `stop_if_no_change` relies on: an iteration that reports no change has
+reached a fixed point of the fold pass.  Proof (`visitNodes_mod`): through the node loop the flag only goes up (alias
+substitution, `replace_node` and the graph-output replacement set it), and while it is down the emitted ++ pending nodes
+are the original list, no initializer has been registered and none popped. -/
+theorem fold_unmodified_means_unchanged (ctx : Ctx) (hnf : ctx.isFunction = false) (info : List (Name × VInfo)) (g : Graph)
+    (hfr : ∀ n ∈ g.nodes, FragBk n) (hm : (foldGraph ctx info g).1.modified = false) :
+    (foldGraph ctx info g).2 = g :=
+  foldGraph_unmodified ctx hnf info g hfr hm
 
 /-! ### partial evaluators (under the operator laws `OpLaws` and truthful annotations `InfoSound`) -/
 
@@ -706,6 +751,10 @@ def infoE : List (Name × VInfo) :=
 /-- folding does fire on `gE`: the `Mul` disappears, `o` becomes an initializer, `a` and `b` are popped -/
 example : (foldGraph ctxE infoE gE).2.nodes.map (·.op) = ["Sub"] ∧
     (foldGraph ctxE infoE gE).2.inits = [("o", "f")] := by decide
+
+/-- non-vacuity of `fold_unmodified_means_unchanged`: `y = Sub(x, x)` — nothing to do, the flag stays down -/
+example : (foldGraph ctxE infoE (.mk ["x"] [] [.mk "Sub" "" [some "x", some "x"] ["y"] [] []] ["y"])).1.modified = false := by
+  decide
 
 theorem fresh_ne (k : Nat) (s : String) (hs : s.toList.head? ≠ some '%') : "%" ++ toString k ≠ s := by
   intro h
